@@ -126,10 +126,9 @@ def main():
     if meta.get("first_evaluation") and meta["caught_by"]:
         meta["history"] = ("MISSED by the quick tier at first evaluation; the generator/oracle was strengthened (DESIGN.md 10.4) "
                            "and the change is now caught")
-    shutil.copy(patch, os.path.join(d, "patch.diff"))
-    shutil.copy(demo, os.path.join(d, "demo.py"))
-    if a.notes and os.path.exists(a.notes):
-        shutil.copy(a.notes, os.path.join(d, "notes.md"))
+    for src, dst in ((patch, "patch.diff"), (demo, "demo.py"), (a.notes, "notes.md")):
+        if src and os.path.exists(src) and os.path.abspath(src) != os.path.join(d, dst):
+            shutil.copy(src, os.path.join(d, dst))
     meta["what_was_run"] = ("scratch worktree of /repo HEAD + patch; demo.py on clean and patched tree; pinned pytest suite on the "
                             "patched tree (stable_pass of BASELINE.json); ./check <id> --tier quick with LASIO_VERIF_REPO=<patched tree>")
     with open(os.path.join(d, "meta.json"), "w") as f:
